@@ -36,7 +36,7 @@ pub fn gen(r: &mut Rng) -> Value {
     // the main script may be named like one of the included files (in another directory) and may be opened through a
     // path relative to the working directory
     let main_name = ["main.ds", "b.ds", "c.ds", "main.ds"][r.below(4)];
-    json!({"files": files, "main_includes": listed, "bad": bad, "split": r.chance(1, 2), "main_name": main_name, "rel": r.below(3)})
+    json!({"files": files, "main_includes": listed, "bad": bad, "split": r.chance(1, 2), "main_name": main_name, "rel": r.below(3), "indent": r.below(4)})
 }
 
 fn paste(dir: &PathBuf, rel: &str, files: &serde_json::Map<String, Value>, out: &mut Vec<(String, usize, String)>) -> Option<()> {
@@ -47,7 +47,7 @@ fn paste(dir: &PathBuf, rel: &str, files: &serde_json::Map<String, Value>, out: 
     for (i, l) in lines.iter().enumerate() {
         let t = l.as_str()?;
         out.push((dir.join(&key).to_string_lossy().to_string(), i + 1, t.to_string()));
-        if let Some(rest) = t.strip_prefix("!include_files ") {
+        if let Some(rest) = t.trim_start().strip_prefix("!include_files ") {
             for inc in rest.split(' ').filter(|x| !x.is_empty()) {
                 // normalise ./ and ../ against base
                 let mut p = base.clone();
@@ -75,12 +75,14 @@ pub fn run(input: &Value) -> Option<Value> {
     let mut files = files;
     let includes: Vec<String> = input["main_includes"].as_array()?.iter().map(|v| v.as_str().unwrap().to_string()).collect();
     let mut main_lines = vec![json!("m0 = set start")];
+    // a directive line may be indented like any other line
+    let ind = ["", " ", "\t", "   "][input["indent"].as_u64().unwrap_or(0) as usize % 4];
     if input["split"].as_bool()? {
         for inc in &includes {
-            main_lines.push(json!(format!("!include_files {}", inc)));
+            main_lines.push(json!(format!("{}!include_files {}", ind, inc)));
         }
     } else {
-        main_lines.push(json!(format!("!include_files {}", includes.join(" "))));
+        main_lines.push(json!(format!("{}!include_files {}", ind, includes.join(" "))));
     }
     main_lines.push(json!("m1 = set end"));
     let main_name = input["main_name"].as_str().unwrap_or("main.ds").to_string();
@@ -130,7 +132,7 @@ pub fn run(input: &Value) -> Option<Value> {
             break;
         }
         if bad == 0 {
-            if let Some(rest) = t.strip_prefix("!include_files ") {
+            if let Some(rest) = t.trim_start().strip_prefix("!include_files ") {
                 if rest.split(' ').any(|x| x.ends_with("d.ds")) {
                     // the missing file is reported when the directive reaches it; lines pasted before it in the
                     // same directive are fine
@@ -163,7 +165,7 @@ pub fn run(input: &Value) -> Option<Value> {
                 }
                 let txt_ok = match &ins.instruction_type {
                     InstructionType::Script(s) => t.starts_with(s.output.as_deref().unwrap_or("")),
-                    InstructionType::PreProcess(_) => t.starts_with('!'),
+                    InstructionType::PreProcess(_) => t.trim_start().starts_with('!'),
                     InstructionType::Empty => t.trim().is_empty(),
                 };
                 if !txt_ok {
